@@ -203,7 +203,7 @@ func keys(m map[string]bool) []string {
 
 func main() {
 	rep := kit.NewReport("C07", "model_checking",
-		"(1) two clients (one per listen address) x every non-decreasing placement of dial / send / receive over 6 positions of a reload (before, old OnRestart, new OnStartup, new listener about to serve, old OnShutdown, after return) - all 56 placements for each client (3136 pairs) - x 5 reload kinds (ok, failing at parse, setup, startup callback, listen), on a real casket.Start/Instance.Restart over loopback sockets; every client must receive one complete response from the old or the new configuration (new if it dialled after a successful return, old after a failed reload), and after every execution the descriptors of the listening sockets and fresh probes must show exactly the expected configuration; (2) two reloads in a row (pairs of kinds; quick: 4 pairs of kinds and 3 straddling plans, thorough: all 25 pairs and 6 straddling plans) with one client at every placement over the 11 positions and the other straddling both reloads: a client must be answered by a configuration in force between its dial and its answer; distinct_nontrivial = outcome classes")
+		"(1) two clients (one per listen address) x every non-decreasing placement of dial / send / receive over 6 positions of a reload (before, old OnRestart, new OnStartup, new listener about to serve, old OnShutdown, after return) - all 56 placements for each client (3136 pairs) - x 5 reload kinds (ok, failing at parse, setup, startup callback, listen), on a real casket.Start/Instance.Restart over loopback sockets; every client must receive one complete response from the old or the new configuration (new if it dialled after a successful return, old after a failed reload), and after every execution the descriptors of the listening sockets and fresh probes must show exactly the expected configuration; (2) two reloads in a row (pairs of kinds; quick: 4 pairs of kinds and 3 straddling plans, thorough: all 25 pairs and 6 straddling plans) with one client at every placement over the 11 positions and the other straddling both reloads: a client must be answered by a configuration in force between its dial and its answer; (3) a site on an ephemeral port (:0) through 5 sequences of reloads: the port picked at start keeps answering; distinct_nontrivial = outcome classes")
 	if !rep.IsWorker() {
 		rep.Assume("interleavings inside net/http's accept/serve loops and the kernel backlog are not enumerated (whoever accepts serves its own configuration); client steps run while the reload is held inside its own callbacks")
 		rep.RunWorkers(16)
@@ -431,6 +431,69 @@ func main() {
 					execute([]string{k1, k2}, pl0, pl1, k1 == "ok" && k2 == "ok" && pi == 150 && si == 2)
 				}
 			}
+		}
+	}
+	// (3) a site on an ephemeral port (address :0): the socket the kernel picked is handed over like any other
+	if next() {
+		cfg0 := func(v int, kind string) string {
+			gateLine := "verif_gate"
+			if kind == "startup" {
+				gateLine = "verif_gate fail-startup"
+			}
+			s := fmt.Sprintf("127.0.0.1:0 {\n\theader / X-V v%d\n\tstatus 204 /ok\n\t%s\n}\n", v, gateLine)
+			if kind == "parse" {
+				s += "{\n"
+			}
+			return s
+		}
+		for _, seq := range [][]string{{"ok"}, {"parse", "ok"}, {"startup", "ok"}, {"ok", "ok"}, {"ok", "startup"}} {
+			before := kit.ListeningFDs()
+			reloading = false
+			inst, err := casket.Start(casket.CasketfileInput{Contents: []byte(cfg0(1, "")), Filepath: filepath.Join(dir, "Casketfile"), ServerTypeName: "http"})
+			if err != nil {
+				rep.Broken("ephemeral port: start: %v", err)
+			}
+			port := 0
+			for p := range kit.ListeningFDs() {
+				if before[p] == 0 && p != p0 && p != p1 && p != pBusy {
+					port = p
+				}
+			}
+			var problems []string
+			if port == 0 {
+				rep.Broken("ephemeral port: no new listening socket after start")
+			}
+			cur := 1
+			for r, kind := range seq {
+				ni, rerr := inst.Restart(casket.CasketfileInput{Contents: []byte(cfg0(r+2, kind)), Filepath: filepath.Join(dir, "Casketfile"), ServerTypeName: "http"})
+				if (rerr == nil) != (kind == "ok") {
+					problems = append(problems, fmt.Sprintf("reload/%s: Restart #%d returned error=%v", kind, r+1, rerr))
+				}
+				if rerr == nil {
+					inst, cur = ni, r+2
+				}
+				n := listenFDs(port)
+				for w := 0; n != 1 && w < 100; w++ { // the old instance closes its copy while it drains: allow it two seconds
+					time.Sleep(20 * time.Millisecond)
+					n = listenFDs(port)
+				}
+				if n != 1 {
+					problems = append(problems, fmt.Sprintf("listener-descriptors: the port picked at start (%d) is held by %d descriptors after reload #%d, want 1", port, n, r+1))
+				}
+				if got, want := probe(port), fmt.Sprintf("204 v%d", cur); got != want {
+					problems = append(problems, fmt.Sprintf("probe-after-reload: the port picked at start answered %q after reload #%d, want %q", got, r+1, want))
+				}
+			}
+			rep.Eval(1)
+			transitions += int64(len(seq))
+			casket.Stop()
+			if n := listenFDs(port); n != 0 {
+				problems = append(problems, fmt.Sprintf("listener-left-open-after-stop: port %d still has %d listening descriptors", port, n))
+			}
+			if len(problems) > 0 {
+				rep.Violation("C07/ephemeral-port/"+strings.SplitN(problems[0], ":", 2)[0], strings.Join(problems, "; "), c07case{strings.Join(seq, ","), nil, nil, nil, strings.Join(problems, "; ")})
+			}
+			rep.Class("ephemeral-port/reloads=" + strings.Join(seq, ","))
 		}
 	}
 	rep.AddInt("states", int64(len(states)))
